@@ -769,7 +769,8 @@ func (w *c16World) parked(prov bool) (quiet, alive bool) {
 			quiet = false
 		}
 	}
-	if alive && atomic.LoadInt32(w.waiting[b01(prov)]) == 0 {
+	dead := w.side(prov).gen != nil && w.side(prov).gen.dead.Load()
+	if alive && !dead && atomic.LoadInt32(w.waiting[b01(prov)]) == 0 {
 		quiet = false
 	}
 	return
@@ -1701,6 +1702,26 @@ func runC16(r *Run) {
 		}
 		runRec("random")(ops)
 	}
+	// directed schedules: crash between bid submission and the ticket
+	// update (the re-submission must be rejected), cancellations that are
+	// delivered to the other side
+	directed := [][]string{
+		{"crash P 0 2", "dlv P 0"},
+		{"crash P 0 3", "dlv P 0", "restart R", "dlv P 1"},
+		{"crash P 0 2", "restart R", "dlv P 1", "dlv P 0"},
+		{"dlv P 0", "dlv R 0", "fin P 6", "dlv R 1"},
+		{"dlv P 0", "fin R 6", "dlv P 1"},
+		{"dlv P 0", "dlv R 0", "fin R 6", "dlv P 1", "restart P"},
+		{"restart P", "dlv R 0", "dlv P 0", "dlv P 1", "fin P 6", "dlv R 2", "dlv R 1"},
+	}
+	for c := 0; c < 14; c++ {
+		ops := append([]string{}, directed[c%len(directed)]...)
+		if c >= len(directed) {
+			ops = append(ops, c16RandomSchedule(r, 2, false)...)
+		}
+		runRec("directed")(ops)
+	}
+
 	// cancel-vs-delivery races: a ticket sits in packetChan when a local
 	// cancellation / completion is handed to the main loop
 	prefixes := [][]string{{}, {"dlv P 0"}, {"dlv P 0", "dlv R 0"}, {"restart P"}, {"dlv P 0", "restart R"},
